@@ -427,18 +427,27 @@ package memfs
 //@   ensures err == nil ==> fresh(arr(nodes)) && Unowned(arr(nodes))
 //@   ensures err != nil ==> nodes == nil
 //@   at_call getDirByPath requires $1 == cleanPath(old(srcPath))
+//@   trace getDirByPath as WALK bind walked
+//@   ensures (err == nil) == (walked.1 == nil)
+//@   ensures err == nil ==> len(nodes) == len(walked.0.nodes) && forall(k, 0 <= k && k < len(nodes) ==> nodes[k] == walked.0.nodes[k])
 //@ func (*Filespace).IsExist [C01 C09]
 //@   requires FsInv(fs)
 //@   modifies $none
 //@   at_call getNodeByPath requires $1 == cleanPath(old(srcPath))
+//@   trace getNodeByPath as WALK bind walked
+//@   ensures result == (walked.1 == nil)
 //@ func (*Filespace).IsFile [C01 C09]
 //@   requires FsInv(fs)
 //@   modifies $none
 //@   at_call getFileByPath requires $1 == cleanPath(old(srcPath))
+//@   trace getFileByPath as WALK bind walked
+//@   ensures result == (walked.1 == nil)
 //@ func (*Filespace).IsDir [C01 C09]
 //@   requires FsInv(fs)
 //@   modifies $none
 //@   at_call getDirByPath requires $1 == cleanPath(old(srcPath))
+//@   trace getDirByPath as WALK bind walked
+//@   ensures result == (walked.1 == nil)
 //@ func (*Filespace).MkdirAll [C01 C09]
 //@   requires FsInv(fs)
 //@   modifies memfs.Dir.nodes, M:string:fs.FileInfo, E:fs.FileInfo, $maplen
@@ -451,12 +460,20 @@ package memfs
 //@   ensures err == nil ==> fresh(arr(data)) || len(data) == 0
 //@   ensures err != nil ==> data == nil
 //@   at_call getFileByPath requires $1 == cleanPath(old(srcPath))
+//@   trace getFileByPath as WALK bind walked
+//@   ensures (err == nil) == (walked.1 == nil)
+//@   ensures err == nil ==> len(data) == len(walked.0.data) && forall(k, 0 <= k && k < len(data) ==> data[k] == walked.0.data[k])
 //@ func (*Filespace).WriteFile [C01 C09]
 //@   requires FsInv(fs)
 //@   modifies memfs.Dir.nodes, M:string:fs.FileInfo, E:fs.FileInfo, $maplen, memfs.File.data, memfs.File.time
 //@   allocates memfs.Dir memfs.File
 //@   ensures Tree()
 //@   at_call splitContainsPath requires $0 == cleanPath(old(destPath))
+//@   trace splitContainsPath as SPLIT bind sp
+//@   trace mkdirAllNodes as MKDIRS bind parent
+//@   at_call mkdirAllNodes requires $0 == fs.root && $1 == sp.0
+//@   ensures err == nil ==> sp.2 == nil && parent.1 == nil && has(parent.0.index, sp.1) && typeis(parent.0.index[sp.1], "*memfs.File")
+//@   ensures err == nil ==> len(as(parent.0.index[sp.1], "*memfs.File").data) == old(len(data)) && forall(k, 0 <= k && k < old(len(data)) ==> as(parent.0.index[sp.1], "*memfs.File").data[k] == old(data[k]))
 //@   at_call NewFile requires (fresh(arr($3)) || len($3) == 0) && len($3) == old(len(data)) && forall(k, 0 <= k && k < old(len(data)) ==> $3[k] == old(data[k]))
 //@   at_call setData requires (fresh(arr($1)) || len($1) == 0) && len($1) == old(len(data)) && forall(k, 0 <= k && k < old(len(data)) ==> $1[k] == old(data[k]))
 //@ func (*Filespace).Remove [C01 C09]
@@ -474,6 +491,8 @@ package memfs
 //@   modifies $none
 //@   ensures result1 == nil ==> isNode(result0)
 //@   at_call getNodeByPath requires $1 == cleanPath(old(nodePath))
+//@   trace getNodeByPath as WALK bind walked
+//@   ensures result0 == walked.0 && result1 == walked.1
 // stream handles: a reader starts at the first stored byte; a writer starts from an empty
 // file whatever was stored before (C04); both own the file's data lock until Close
 //@ func (*Filespace).Reader [C01 C04 C09]
